@@ -31,21 +31,39 @@ ASSUMPTIONS = [
     'C12: a zero-length answer to a block request and SFTPEOFError are the end-of-file indications; completeness of '
     'iter() is claimed for the byte positions below the lowest offset at which end-of-file was indicated',
     'C12: the consumers of iter() (_SFTPFileReader.run, _SFTPFileWriter.run, _SFTPFileCopier.run) see it through a '
-    'hand-restated callee view (sequence of yielded items, or SFTPError/OSError after any prefix); the per-item facts '
-    'used there (offset >= start of the range; data == source bytes at that offset) restate the yield obligations '
-    'proved on iter(), the run_task contracts and the server contract of READ (C14)',
-    'C12: composition on paper: iter (every position below EOF yielded exactly once) + _SFTPFileReader.run (a yielded '
-    'position holds the source byte, nothing beyond the last block, gaps zero) gives result == source[start:start+n] '
-    'up to EOF; _SFTPFileWriter.run_task is proved for blocks inside the data, which is what iter() issues',
+    'hand-restated callee view (sequence of yielded items, or SFTPError/OSError after any prefix) that demands '
+    'iter()\'s precondition at the call (pre-at-call iter-requires); the per-item facts used there (offset >= ghost_lo; '
+    'data == source bytes at that offset) restate the yield obligations proved on iter() and the run_task / '
+    '_start_task / SFTPClientHandler.read contracts; that the bytes the server puts into a DATA reply are the '
+    'file\'s bytes at the requested offset rests on SFTPServerHandler._process_read (verified here: the wire '
+    'offset/length reach SFTPServer.read unchanged and its result is the reply) and on SFTPServer.read / the OS '
+    '(assumed; C14 covers only the packet codecs, not the request handlers)',
+    'C12: glue under contract: the four __init__ (fields == arguments, nothing outstanding), _start_task (reports the '
+    'request and run_task\'s count/result unchanged); SFTPClientFile.read/write/read_parallel construct the '
+    'reader/writer through the verified __init__ contract and call run()/iter() through the verified contracts, so '
+    'their preconditions are pre-at-call obligations; the ghost range of a new scheduler is defined at construction',
+    'C12: composition still on paper: iter (every position below EOF yielded exactly once) + _SFTPFileReader.run (a '
+    'yielded position holds the source byte, nothing beyond the last block, gaps zero) gives '
+    'result == source[start:start+n] up to EOF; writer_run_task\'s block precondition is the issue-site obligation '
+    'issued-block-inside-the-requested-range (iter, _start_tasks) carried through _start_task',
+    'C12: a _SFTPParallelIO object is not reused after iter() raised (its _pending then still holds the cancelled '
+    'tasks; the copier\'s finally only closes the files)',
+    'C12: for the remote-copy branch of _SFTPFileCopier.run the clause non-sparse-success-means-all-bytes-copied is '
+    'true by construction (ghost_sum := sum of the announced lengths; the copy itself is the server\'s copy-data); '
+    'a READ reply longer than requested (count > size) is never produced by result_stub: open item for C10 '
+    '(hostile server), the code does not guard it',
     'C12: lseek(SEEK_DATA/SEEK_HOLE) follows lseek(2) (next data position / next hole, ENXIO when none); the file is '
     'not modified during a scan (isdata is a fixed predicate)',
     'C12: the ranges@asyncssh.com reply is a non-empty ascending list of the data ranges of the queried window, '
-    'complete up to the end of its last range, complete for the window when at_end (what _process_ranges serves)',
+    'complete up to the end of its last range, complete for the window when at_end: server_ranges_stub restates what '
+    'is proved on SFTPServerHandler._process_ranges (prefix of the ranges, at_end only when complete, cut-off reply '
+    'full) composed with _request_ranges (every data byte of the window exactly once, ascending)',
     'C12: close() of the source/destination file in _SFTPFileCopier.run does not raise; SFTPClientFile.handle '
     '(property) is read as a field; write() is analysed for bytes data (str data only through the encode stub)',
     'C12: SFTPLimits held by a handler are >= 1 (defaults 16 KiB; proved preserved by request_limits); '
     'SFTPClientFile is constructed with block_size >= -1 (documented domain)',
-    'C12: not covered: the recursive driver _copy/_begin_copy beyond parameter normalisation (paths: C13), the Windows '
+    'C12: not covered: the recursive driver _copy/_begin_copy beyond parameter normalisation and the file branch of '
+    '_copy (paths, directory and symlink branches: C13), SFTPServer.read/write (local file I/O), the Windows '
     'and fallback variants of _request_ranges, LocalFile, SFTPClient.remote_copy itself, termination of iter()',
 ]
 
@@ -67,7 +85,25 @@ PIO_CLASSES = {'PIO': PIO_FIELDS}
 
 
 def gi(f):
-    return f('ghost_i'), f('ghost_lo')
+    """parameters of the tile-count instances used by the scheduler: (rigid position, end of the requested range)
+    for the position-indexed counts, start of the requested range for cnt_bad"""
+    return (f('ghost_i'), f('ghost_hi')), f('ghost_lo')
+
+
+class _Both:
+    """REQ's axiom instances at every position parameter of a tuple (the rigid position and ghost_hi)"""
+    def __getattr__(self, name):
+        fn = getattr(REQ, name)
+
+        def g(*args):
+            *a, i, lo = args
+            if isinstance(i, tuple):
+                return [z for p_ in i for z in fn(*a, p_, lo)]
+            return fn(*a, i, lo)
+        return g
+
+
+RQ = _Both()
 
 
 def tail_in(f):
@@ -76,13 +112,19 @@ def tail_in(f):
 
 
 def sane(f):
-    return z3.And(f('_block_size') >= 1, f('_bytes_left') >= 0, f('_offset') >= f('ghost_lo'))
+    return z3.And(f('_block_size') >= 1, f('_bytes_left') >= 0, f('_offset') >= f('ghost_lo'),
+                  f('_offset') + f('_bytes_left') <= f('ghost_hi'))
 
 
 def order_inv(f, extra=0):
     """no outstanding block ends after a position at or beyond the unscheduled tail: blocks are issued in
     increasing offset order and a short read's remainder ends where its block ended"""
     return z3.Implies(f('ghost_i') >= f('_offset'), REQ.cnt_end(f('_pending'), f('ghost_i')) + extra == 0)
+
+
+def ends_inv(f, extra=0):
+    """no outstanding block ends beyond the end of the requested range"""
+    return REQ.cnt_end(f('_pending'), f('ghost_hi')) + extra == 0
 
 
 def sizes_inv(f, extra=0):
@@ -116,10 +158,12 @@ def pending_add(site):
             cx.require('issued-block-size-in-1..block_size', z3.And(n >= 1, n <= cx.selff('_block_size').z))
         else:
             cx.require('remainder-non-empty-and-smaller', z3.And(n >= 1, n < cx.selff('ghost_cur_size').z))
+        cx.require('issued-block-inside-the-requested-range',
+                   z3.And(o >= cx.selff('ghost_lo').z, o + n <= cx.selff('ghost_hi').z))
         x = REQ.mk(o, n)
         newp = z3.Concat(P.z, z3.Unit(x))
         return [Out(sets={'_pending': VSeq(newp, TILE)},
-                    assume=REQ.ax_snoc(P.z, x, i, lo) + REQ.ax_nonneg(newp, i, lo) + REQ.ax_nonneg(P.z, i, lo))]
+                    assume=RQ.ax_snoc(P.z, x, i, lo) + RQ.ax_nonneg(newp, i, lo) + RQ.ax_nonneg(P.z, i, lo))]
     stub.modifies = ('_pending',)
     return stub
 
@@ -134,7 +178,7 @@ def start_cover(c, f0):
 def start_loop_inv(c):
     f, e = c.new, c.at_entry
     return z3.And(
-        sane(f), start_cover(c, e), order_inv(f), sizes_inv(f),
+        sane(f), start_cover(c, e), order_inv(f), sizes_inv(f), ends_inv(f),
         f('_offset') + f('_bytes_left') == e('_offset') + e('_bytes_left'), f('_offset') >= e('_offset'),
         z3.Implies(z3.Length(e('_pending')) <= e('_max_requests'),
                    z3.Length(f('_pending')) <= f('_max_requests')),
@@ -147,12 +191,13 @@ start_tasks = Spec(
            'self._pending.add': pending_add('start')},
     loops={1: LoopSpec(header='self._bytes_left and len(self._pending) < self._max_requests',
                        invariant=start_loop_inv, variant=lambda c: c.new('_bytes_left'))},
-    requires=lambda c: z3.And(sane(c.old), order_inv(c.old), sizes_inv(c.old)),
+    requires=lambda c: z3.And(sane(c.old), order_inv(c.old), sizes_inv(c.old), ends_inv(c.old)),
     modifies=['_offset', '_bytes_left', '_pending'],
     ensures=[
         ('coverage-preserved', lambda c: start_cover(c, c.old)),
         ('issue-order', lambda c: order_inv(c.new)),
         ('sizes-positive', lambda c: sizes_inv(c.new)),
+        ('blocks-end-inside-the-range', lambda c: ends_inv(c.new)),
         ('sane', lambda c: sane(c.new)),
         ('range-end-fixed', lambda c: z3.And(
             c.new('_offset') + c.new('_bytes_left') == c.old('_offset') + c.old('_bytes_left'),
@@ -176,7 +221,7 @@ def wait_stub(cx):
     R = cx.fresh('seq[' + TILE + ']', 'rest')
     return [Out(ret=VTuple([D, R]),
                 assume=[z3.Length(D.z) >= 1, z3.Length(P) == z3.Length(D.z) + z3.Length(R.z)] +
-                REQ.ax_union(P, D.z, R.z, i, lo) + REQ.ax_nonneg(D.z, i, lo) + REQ.ax_nonneg(R.z, i, lo))]
+                RQ.ax_union(P, D.z, R.z, i, lo) + RQ.ax_nonneg(D.z, i, lo) + RQ.ax_nonneg(R.z, i, lo))]
 
 
 wait_stub.modifies = ()
@@ -197,8 +242,8 @@ def result_stub(cx):
     if x is not None and z3.is_app(x) and x.decl().kind() == z3.Z3_OP_SEQ_NTH:
         D, k = x.arg(0), x.arg(1)
         i, lo = gi(lambda n_: cx.selff(n_).z)
-        unfold = REQ.ax_cons_at(D, k, i, lo) + REQ.ax_nonneg(TL.suffix(D, k + 1), i, lo) + \
-            REQ.ax_nonneg(cx.selff('_pending').z, i, lo)
+        unfold = RQ.ax_cons_at(D, k, i, lo) + RQ.ax_nonneg(TL.suffix(D, k + 1), i, lo) + \
+            RQ.ax_nonneg(cx.selff('_pending').z, i, lo)
     for zero in (False, True):
         cnt = VInt(0) if zero else cx.fresh('int', 'count')
         res = cx.fresh('any', 'result')
@@ -261,7 +306,7 @@ def exc_len(c):
     return z3.IntVal(len(v.items)) if isinstance(v, VList) else z3.Length(v.z)
 
 
-def iter_core(f, rem_in, rem_end, rem_bad):
+def iter_core(f, rem_in, rem_end, rem_bad, rem_hi):
     """the scheduler invariant for the rigid position; rem_* count the completed blocks not yet handled"""
     i = f('ghost_i')
     cover = REQ.cnt_in(f('_pending'), i) + rem_in + f('ghost_ycnt') + tail_in(f)
@@ -270,13 +315,13 @@ def iter_core(f, rem_in, rem_end, rem_bad):
         cover <= in_range(f),                               # nothing delivered twice or from outside the range
         # below the lowest EOF position nothing is lost (unless a block failed: then iter() is going to raise)
         z3.Or(f('ghost_failed'), z3.Implies(below_eof(f), cover == in_range(f))),
-        order_inv(f, rem_end), sizes_inv(f, rem_bad),
+        order_inv(f, rem_end), sizes_inv(f, rem_bad), ends_inv(f, rem_hi),
         z3.Not(f('ghost_cur_open')))
 
 
 def iter_loop1_inv(c):
     f = c.new
-    return z3.And(iter_core(f, 0, 0, 0), z3.Not(f('ghost_failed')),
+    return z3.And(iter_core(f, 0, 0, 0, 0), z3.Not(f('ghost_failed')),
                   z3.Length(f('_pending')) <= f('_max_requests'),
                   z3.Or(f('_bytes_left') == 0, z3.Length(f('_pending')) >= f('_max_requests')))
 
@@ -284,9 +329,9 @@ def iter_loop1_inv(c):
 def iter_loop2_inv(c):
     f = c.new
     D, k = c.extra['iter'].z, c.extra['i']
-    i, lo = gi(f)
+    i, lo = f('ghost_i'), f('ghost_lo')
     S = TL.suffix(D, k)
-    return z3.And(iter_core(f, REQ.cnt_in(S, i), REQ.cnt_end(S, i), REQ.cnt_bad(S, lo)),
+    return z3.And(iter_core(f, REQ.cnt_in(S, i), REQ.cnt_end(S, i), REQ.cnt_bad(S, lo), REQ.cnt_end(S, f('ghost_hi'))),
                   (exc_len(c) > 0) == f('ghost_failed'),
                   z3.Length(f('_pending')) + z3.Length(D) - k <= f('_max_requests'))
 
@@ -294,8 +339,8 @@ def iter_loop2_inv(c):
 def iter_loop2_lemmas(c):
     D, k0 = c.extra['iter'].z, c.extra['i0']
     i, lo = gi(c.new)
-    return REQ.ax_cons_at(D, k0, i, lo) + REQ.ax_nonneg(TL.suffix(D, k0), i, lo) + \
-        REQ.ax_nonneg(TL.suffix(D, k0 + 1), i, lo) + REQ.ax_nonneg(c.new('_pending'), i, lo) + REQ.ax_empty(i, lo)
+    return RQ.ax_cons_at(D, k0, i, lo) + RQ.ax_nonneg(TL.suffix(D, k0), i, lo) + \
+        RQ.ax_nonneg(TL.suffix(D, k0 + 1), i, lo) + RQ.ax_nonneg(c.new('_pending'), i, lo) + RQ.ax_empty(i, lo)
 
 
 ITER_STUBS = {
@@ -307,18 +352,22 @@ ITER_STUBS = {
 }
 
 
-def iter_requires(c):
-    f = c.old
+def iter_pre(f):
+    """precondition of iter() over a field accessor f (also demanded at the run() / iter() call sites)"""
     return z3.And(f('_block_size') >= 1, f('_bytes_left') >= 0, f('_max_requests') >= 1,
                   f('_pending') == z3.Empty(REQ.SEQ),
                   f('ghost_lo') == f('_offset'), f('ghost_hi') == f('_offset') + f('_bytes_left'),
                   f('ghost_ycnt') == 0, z3.Not(f('ghost_failed')), z3.Not(f('ghost_cur_open')))
 
 
+def iter_requires(c):
+    return iter_pre(c.old)
+
+
 def iter_setup(ex, st):
     """definitional instance: no tile of the empty list covers / ends after the position"""
     g = lambda n_: ex.get_field(st, ex.self_ref, n_).z
-    for z in REQ.ax_empty(g('ghost_i'), g('ghost_lo')):
+    for z in RQ.ax_empty((g('ghost_i'), g('ghost_hi')), g('ghost_lo')):
         st.assume(z)
 
 
@@ -328,12 +377,12 @@ pio_iter = Spec(
     local_types={'exceptions': 'seq[opaque:Exc]'},
     loops={
         1: LoopSpec(header='self._pending', invariant=iter_loop1_inv, modifies=['_offset'],
-                    lemmas=lambda c: REQ.ax_nonneg(c.new('_pending'), *gi(c.new))),
+                    lemmas=lambda c: RQ.ax_nonneg(c.new('_pending'), *gi(c.new))),
         2: LoopSpec(header='for task in done', invariant=iter_loop2_inv, lemmas=iter_loop2_lemmas),
         3: LoopSpec(header='for task in self._pending', invariant=lambda c: z3.BoolVal(True)),
     },
     requires=iter_requires, setup=iter_setup,
-    lemmas=lambda c: REQ.ax_nonneg(c.new('_pending'), *gi(c.new)),
+    lemmas=lambda c: RQ.ax_nonneg(c.new('_pending'), *gi(c.new)),
     ensures=[
         # normal exhaustion of the generator
         ('every-byte-below-eof-delivered-exactly-once',
@@ -474,9 +523,11 @@ def reader_iter_stub(cx):
       - every yielded offset is >= the start of the requested range (iter: yielded-offset-not-below-...),
       - the data of an item is what handler.read returned for that offset (run_task), which the server contract
         (READ returns the file's bytes at the offset, C14) makes the source bytes: stated for the rigid position"""
+    cx.require('iter-requires', iter_pre(lambda n_: cx.selff(n_).z))
     R = cx.fresh('seq[' + ITEM_T + ']', 'items')
     R.raises = ['SFTPError', 'OSError']
-    i, b, start = cx.selff('ghost_i').z, cx.selff('ghost_b').z, cx.selff('_start').z
+    # yielded offsets are >= ghost_lo (obligation yielded-offset-not-below-the-requested-range on iter)
+    i, b, start = cx.selff('ghost_i').z, cx.selff('ghost_b').z, cx.selff('ghost_lo').z
 
     def per_item(k):
         x = R.z[k]
@@ -535,6 +586,8 @@ reader_run = Spec(
     stubs={'self.iter': reader_iter_stub},
     loops={1: LoopSpec(header='for (offset, data) in self.iter()', invariant=reader_loop_inv,
                        lemmas=reader_loop_lemmas)},
+    # a freshly constructed reader: scheduler range == requested range, reassembly base == its start
+    requires=lambda c: z3.And(iter_pre(c.old), c.old('_start') == c.old('_offset')), returns='bytes',
     ensures=[('result-holds-the-source-bytes-at-their-offsets', lambda c: reader_facts(
         c.new, ITEM.cnt_in(c.calls('self.iter')[0]['ret'].z, c.new('ghost_i')),
         ITEM.cnt_end(c.calls('self.iter')[0]['ret'].z, c.new('ghost_i')), c.result))],
@@ -549,10 +602,14 @@ WRITER_CLASSES = {'Writer': dict(PIO_FIELDS, _handler='obj:Handler', _handle='by
 
 
 def writer_block(c):
-    """the block [offset, offset+size) lies inside the data handed to the writer (what iter() issues:
-    offsets >= the start of the range, blocks inside [start, start+len(data)))"""
-    return z3.And(c.arg('size') >= 0, c.arg('offset') >= c.old('_start'),
-                  c.arg('offset') + c.arg('size') <= c.old('_start') + z3.Length(c.old('_data')))
+    """the block is one that iter() issued: inside the requested range [ghost_lo, ghost_hi) (obligation
+    issued-block-inside-the-requested-range at both issue sites of iter/_start_tasks; _start_task hands the request
+    to run_task unchanged), and the requested range is the data: ghost_lo == _start, ghost_hi == _start + len(_data)
+    (from writer_run's precondition, checked where the writer is constructed and run; none of these fields is
+    written after construction)"""
+    f = c.old
+    return z3.And(c.arg('size') >= 0, c.arg('offset') >= f('ghost_lo'), c.arg('offset') + c.arg('size') <= f('ghost_hi'),
+                  f('ghost_lo') == f('_start'), f('ghost_hi') == f('_start') + z3.Length(f('_data')))
 
 
 writer_run_task = Spec(
@@ -573,6 +630,7 @@ writer_run_task.runtime_class = '_SFTPFileWriter'
 
 def unit_iter_stub(cx):
     """iter() as seen by a consumer that ignores the items: some sequence of items, or an error after a prefix"""
+    cx.require('iter-requires', iter_pre(lambda n_: cx.selff(n_).z))
     R = cx.fresh('seq[' + TILE + ']', 'items')
     R.raises = ['SFTPError', 'OSError']
     return [Out(ret=R, event=('iter', ()))]
@@ -584,6 +642,9 @@ writer_run = Spec(
     PROP, 'sftp', '_SFTPFileWriter.run', self_class='Writer', classes=WRITER_CLASSES,
     stubs={'self.iter': unit_iter_stub},
     loops={1: LoopSpec(header='for _ in self.iter()', invariant=lambda c: z3.BoolVal(True))},
+    # a freshly constructed writer: scheduler range == the whole data, placed at _start
+    requires=lambda c: z3.And(iter_pre(c.old), c.old('_start') == c.old('_offset'),
+                              c.old('_bytes_left') == z3.Length(c.old('_data'))),
     ensures=[('drains-the-scheduler-once', lambda c: z3.BoolVal(len(c.events('iter')) == 1))],
     # a failed block surfaces as the error of the whole write (never swallowed)
     raises={'SFTPError': True, 'OSError': True})
@@ -797,7 +858,44 @@ FILE_FIELDS = {
 }
 FILE_CLASSES = {'ClientFile': FILE_FIELDS, 'Handler': {'limits': 'obj:Limits'},
                 'Limits': {'max_read_len': 'int', 'max_write_len': 'int'}}
+FILE_CLASSES['Reader'] = dict(PIO_FIELDS, _handler='obj:Handler', _handle='bytes', _start='int', ghost_b='int')
+FILE_CLASSES['Writer'] = dict(PIO_FIELDS, _handler='obj:Handler', _handle='bytes', _start='int', _data='bytes')
 SEEK_GLOBALS = {'SEEK_SET': VInt(0), 'SEEK_CUR': VInt(1), 'SEEK_END': VInt(2)}     # os.SEEK_* (POSIX values)
+
+
+def construct(cls, init_getter, name, ghost_zero=()):
+    """ClassName(args): a new object of heap shape `cls` (arbitrary fields), then the *contract* of its verified
+    __init__ (contract_stub on the new object).  Ghost initialisation: the new scheduler's ghost range is its
+    requested range and nothing has been yielded yet (ghost fields are specification-only and unconstrained in the
+    fresh object, so fixing them is a definition, not an assumption about the code)."""
+    from pyvc.engine import CallCtx
+
+    def stub(cx):
+        ex, st = cx.ex, cx.st
+        ref = ex.new_object(st, cls, name)
+        cx2 = CallCtx(ex, st, cx.key + '.__init__', ref, cx.args, cx.kwargs, cx.node)
+        outs = contract_stub(init_getter)(cx2)
+        cx.requires.extend(cx2.requires)
+        g = lambda n_: ex.get_field(st, ref, n_).z
+        res = []
+        for o in outs:
+            if o.exc is not None:
+                res.append(o)
+                continue
+            new = dict(o.sets)
+            o.osets = [(ref, f_, v_) for f_, v_ in new.items()]
+            o.sets = {}
+            o.ret = ref
+            o.event = (name, tuple(cx.args))
+            o.assume = list(o.assume) + [
+                g('ghost_lo') == new['_offset'].z, g('ghost_hi') == new['_offset'].z + new['_bytes_left'].z,
+                g('ghost_ycnt') == 0, z3.Not(g('ghost_failed')), z3.Not(g('ghost_cur_open'))] + \
+                [g(n_) == 0 for n_ in ghost_zero]
+            res.append(o)
+        return res
+    stub.modifies = ()
+    stub.spec_getter = init_getter      # a verified contract, not a hand-written assumption
+    return stub
 
 
 def ctor_stub(name):
@@ -917,7 +1015,7 @@ def reader_ctor_stub(cx):
     cx.require('parallel-reader-gets-block_size>=1', a[0].z >= 1)
     cx.require('parallel-reader-gets-max_requests>=1', a[1].z >= 1)
     cx.require('parallel-reader-gets-size>=0', z3.And(z3.Not(opt_val(a[5])[0]), opt_val(a[5])[1] >= 0))
-    return ctor_stub('reader')(cx)
+    return construct('Reader', lambda: reader_init, 'reader')(cx)
 
 
 reader_ctor_stub.modifies = ()
@@ -927,7 +1025,7 @@ file_read = Spec(
     params={'size': 'opt[int]', 'offset': 'opt[int]'},
     stubs={'self._end': may_raise(ret('int', 'end'), 'SFTPError'),
            '_SFTPFileReader': reader_ctor_stub,
-           '_SFTPFileReader().run': may_raise(ret('bytes', 'assembled'), 'SFTPEOFError', 'SFTPError', 'OSError'),
+           '_SFTPFileReader().run': contract_stub(lambda: reader_run),
            'self._handler.read': handler_read_stub,
            'data.decode': may_raise(ret('str', 'decoded', event='decode'), 'UnicodeDecodeError')},
     requires=file_inv,
@@ -968,7 +1066,7 @@ def writer_ctor_stub(cx):
     """_SFTPFileWriter(block_size, max_requests, handler, handle, offset, data): what iter() requires"""
     a = cx.args
     cx.require('parallel-writer-gets-block_size>=1-and-max_requests>=1', z3.And(a[0].z >= 1, a[1].z >= 1))
-    return ctor_stub('writer')(cx)
+    return construct('Writer', lambda: writer_init, 'writer')(cx)
 
 
 writer_ctor_stub.modifies = ()
@@ -978,7 +1076,7 @@ file_write = Spec(
     params={'data': 'bytes', 'offset': 'opt[int]'},
     stubs={'cast().encode': may_raise(ret('bytes', 'encoded'), 'UnicodeEncodeError'),
            '_SFTPFileWriter': writer_ctor_stub,
-           '_SFTPFileWriter().run': may_raise(noop('run'), 'SFTPError', 'OSError'),
+           '_SFTPFileWriter().run': contract_stub(lambda: writer_run),
            'self._handler.write': may_raise(noop('write'), 'SFTPError')},
     requires=file_inv,
     ensures=[('written-at-the-position-and-position-advanced', write_post)],
@@ -1231,11 +1329,21 @@ def read_parallel_post(c):
                                 z3.And(int_is(a[4], eff), size_is, size_ok)))
 
 
+def reader_iter_handout_stub(cx):
+    """_SFTPFileReader(...).iter(): the async iterator handed to the caller; iter()'s precondition must hold for the
+    freshly constructed reader"""
+    g = lambda n_: cx.ex.get_field(cx.st, cx.recv, n_).z
+    cx.require('iter-requires', iter_pre(g))
+    return [Out(ret=cx.fresh('opaque:AsyncIter', 'iterator'))]
+
+
+reader_iter_handout_stub.modifies = ()
+
 file_read_parallel = Spec(
     PROP, 'sftp', 'SFTPClientFile.read_parallel', self_class='ClientFile', classes=FILE_CLASSES,
     params={'size': 'opt[int]', 'offset': 'opt[int]'},
     stubs={'self._end': may_raise(ret('int', 'end'), 'SFTPError'), '_SFTPFileReader': reader_ctor_stub,
-           '_SFTPFileReader().iter': ret('opaque:AsyncIter', 'iterator')},
+           '_SFTPFileReader().iter': reader_iter_handout_stub},
     requires=file_inv,
     ensures=[('reader-set-up-for-the-requested-range', read_parallel_post)],
     raises={'ValueError': lambda c: z3.And(c.is_none(c.oldv('_handle')), offset_unchanged(c)),
@@ -1253,3 +1361,393 @@ def extra_checks(tier, seed):
             lemmas.append({'name': f'C12.specs.tiles#{name}', 'verdict': 'proved' if ok else 'unknown',
                            'backend': 'z3', 'reason': None if ok else 'not discharged'})
     return {'lemmas': lemmas}
+
+
+# ------------------------------------------------------------------ constructors and _start_task (the glue)
+def iarg(c, name):
+    """int argument (an Optional at some call sites: its value; the None case is excluded there by the caller)"""
+    return opt_val(c.argv(name))[1]
+
+
+def same_obj(c, field, arg):
+    """the field holds the very object passed in.  Proved on __init__; at call sites (callee view) object-typed
+    fields are not part of `modifies` - a modular call cannot express reference identity - so the clause is void
+    there and the new object's collaborator stays an arbitrary object of its class"""
+    if getattr(c, 'callee_view', False):
+        return z3.BoolVal(True)
+    return c.eq(c.newv(field), c.argv(arg))
+
+
+def empty_set_stub(cx):
+    """set(): the empty set of tasks (modelled as the empty list of requests)"""
+    return VSeq(z3.Empty(REQ.SEQ), TILE)
+
+
+empty_set_stub.modifies = ()
+PIO_INIT_FIELDS = ['_block_size', '_max_requests', '_offset', '_bytes_left', '_pending']
+
+
+def pio_init_post(c, size):
+    f = c.new
+    return z3.And(f('_block_size') == iarg(c, 'block_size'), f('_max_requests') == iarg(c, 'max_requests'),
+                  f('_offset') == iarg(c, 'offset'), f('_bytes_left') == size, f('_pending') == z3.Empty(REQ.SEQ))
+
+
+pio_init = Spec(
+    PROP, 'sftp', '_SFTPParallelIO.__init__', self_class='PIO', classes=PIO_CLASSES,
+    params={'block_size': 'int', 'max_requests': 'int', 'offset': 'int', 'size': 'int'},
+    stubs={'set': empty_set_stub}, modifies=PIO_INIT_FIELDS,
+    ensures=[('range-is-[offset,offset+size)-nothing-outstanding', lambda c: pio_init_post(c, iarg(c, 'size')))])
+pio_init.no_replay = True
+
+reader_init = Spec(
+    PROP, 'sftp', '_SFTPFileReader.__init__', self_class='Reader', classes=dict(READER_CLASSES),
+    params={'block_size': 'int', 'max_requests': 'int', 'handler': 'obj:Handler', 'handle': 'bytes',
+            'offset': 'int', 'size': 'int'},
+    stubs={'super().__init__': contract_stub(lambda: pio_init)},
+    modifies=PIO_INIT_FIELDS + ['_handle', '_start'],      # (+ _handler: see same_obj)
+    ensures=[('scheduler-range', lambda c: pio_init_post(c, iarg(c, 'size'))),
+             # the base of the reassembly buffer is the start of the requested range
+             ('reassembly-base-is-the-range-start', lambda c: z3.And(
+                 c.new('_start') == iarg(c, 'offset'), same_obj(c, '_handler', 'handler'),
+                 c.eq(c.newv('_handle'), c.argv('handle'))))])
+reader_init.no_replay = True
+
+writer_init = Spec(
+    PROP, 'sftp', '_SFTPFileWriter.__init__', self_class='Writer', classes=dict(WRITER_CLASSES),
+    params={'block_size': 'int', 'max_requests': 'int', 'handler': 'obj:Handler', 'handle': 'bytes',
+            'offset': 'int', 'data': 'bytes'},
+    stubs={'super().__init__': contract_stub(lambda: pio_init)},
+    modifies=PIO_INIT_FIELDS + ['_handle', '_start', '_data'],      # (+ _handler: see same_obj)
+    ensures=[('scheduler-range-is-the-whole-data', lambda c: pio_init_post(c, z3.Length(c.arg('data')))),
+             ('data-base-is-the-range-start', lambda c: z3.And(
+                 c.new('_start') == iarg(c, 'offset'), c.new('_data') == c.arg('data'),
+                 same_obj(c, '_handler', 'handler'), c.eq(c.newv('_handle'), c.argv('handle'))))])
+writer_init.no_replay = True
+
+COPIER_INIT_PARAMS = {'block_size': 'int', 'max_requests': 'int', 'total_bytes': 'int', 'sparse': 'bool',
+                      'srcfs': 'obj:FS', 'dstfs': 'obj:FS', 'srcpath': 'bytes', 'dstpath': 'bytes',
+                      'progress_handler': 'opt[opaque:Progress]'}
+
+
+def copier_init_post(c):
+    f = c.new
+    return z3.And(
+        f('_block_size') == iarg(c, 'block_size'), f('_max_requests') == iarg(c, 'max_requests'),
+        f('_pending') == z3.Empty(REQ.SEQ), f('_bytes_left') == 0,
+        f('_total_bytes') == iarg(c, 'total_bytes'), f('_sparse') == c.arg('sparse'), f('_bytes_copied') == 0,
+        c.is_none(c.newv('_src')), c.is_none(c.newv('_dst')),
+        same_obj(c, '_srcfs', 'srcfs'), same_obj(c, '_dstfs', 'dstfs'),
+        f('_srcpath') == c.arg('srcpath'), f('_dstpath') == c.arg('dstpath'))
+
+
+copier_init = Spec(
+    PROP, 'sftp', '_SFTPFileCopier.__init__', self_class='Copier', classes=COPIER_CLASSES,
+    params=COPIER_INIT_PARAMS,
+    stubs={'super().__init__': contract_stub(lambda: pio_init)},
+    modifies=PIO_INIT_FIELDS + ['_sparse', '_srcpath', '_dstpath', '_src', '_dst',      # (+ _srcfs, _dstfs)
+                                '_bytes_copied', '_total_bytes', '_progress_handler'],
+    ensures=[('copier-starts-with-the-announced-size-and-nothing-copied', copier_init_post)])
+copier_init.no_replay = True
+
+
+def run_task_stub(cx):
+    """self.run_task(offset, size) of the subclass: (count, result)"""
+    cnt, res = cx.fresh('int', 'count'), cx.fresh('any', 'result')
+    return [Out(ret=VTuple([cnt, res]), event=('run_task', tuple(cx.args))),
+            Out(exc=VExc('SFTPError')), Out(exc=VExc('OSError'))]
+
+
+run_task_stub.modifies = ()
+
+start_task = Spec(
+    PROP, 'sftp', '_SFTPParallelIO._start_task', self_class='PIO', classes=PIO_CLASSES,
+    params={'offset': 'int', 'size': 'int'}, stubs={'self.run_task': run_task_stub},
+    ensures=[
+        # the completed task reports its own request and exactly what run_task did with it (the count drives the
+        # short-read continuation in iter())
+        ('runs-the-block-it-was-started-for', lambda c: one_call(c, 'self.run_task', c.argv('offset'), c.argv('size'))),
+        ('reports-request-count-and-result-unchanged', lambda c: z3.And(
+            c.result_v.items[0].z == c.arg('offset'), c.result_v.items[1].z == c.arg('size'),
+            c.result_v.items[2].z == c.calls('self.run_task')[0]['ret'].items[0].z,
+            c.eq(c.result_v.items[3], c.calls('self.run_task')[0]['ret'].items[1]))),
+    ],
+    raises={'SFTPError': True, 'OSError': True})
+start_task.no_replay = True
+
+
+# ------------------------------------------------------------------ SFTPClientHandler.read / write / request_ranges
+# what goes on the wire for a block: (handle, offset, length | data); the reply is decoded by _make_request (C14)
+from pyvc.builtins_model import be
+
+CH_CLASSES = {'CHandler2': {'_supports_ranges': 'bool'}, 'Pkt': {}}
+
+
+def wire_string(b):
+    return z3.Concat(be(z3.IntVal(4), z3.Length(b)), b)
+
+
+def uint_ok(v, width):
+    return z3.And(v >= 0, v < 256 ** width)
+
+
+def request_is(c, *fields):
+    """exactly one self._make_request(type, *fields) with these encoded fields, in this order"""
+    calls = c.calls('self._make_request')
+    if len(calls) != 1 or len(calls[0]['args']) != len(fields):
+        return z3.BoolVal(False)
+    conj = []
+    for a, e in zip(calls[0]['args'], fields):
+        conj.append(a.z == (z3.IntVal(e) if isinstance(e, int) else e))
+    return z3.And(conj)
+
+
+def mk_request_stub(cx):
+    return [Out(ret=cx.fresh('any', 'reply'), event=('request', tuple(cx.args))), Out(exc=VExc('SFTPError'))]
+
+
+mk_request_stub.modifies = ()
+FXP_READ, FXP_WRITE = 5, 6        # draft-ietf-secsh-filexfer: SSH_FXP_READ / SSH_FXP_WRITE
+
+handler_read = Spec(
+    PROP, 'sftp', 'SFTPClientHandler.read', self_class='CHandler2', classes=CH_CLASSES,
+    params={'handle': 'bytes', 'offset': 'int', 'length': 'int'}, stubs={'self._make_request': mk_request_stub},
+    ensures=[('READ-carries-handle-offset-length', lambda c: request_is(
+        c, FXP_READ, wire_string(c.arg('handle')), be(z3.IntVal(8), c.arg('offset')),
+        be(z3.IntVal(4), c.arg('length')))),
+        ('reply-is-passed-on', lambda c: c.eq(c.result_v, c.calls('self._make_request')[0]['ret']))],
+    raises={'OverflowError': lambda c: z3.Not(z3.And(uint_ok(c.arg('offset'), 8), uint_ok(c.arg('length'), 4))),
+            'SFTPError': True})
+handler_read.no_replay = True
+
+handler_write = Spec(
+    PROP, 'sftp', 'SFTPClientHandler.write', self_class='CHandler2', classes=CH_CLASSES,
+    params={'handle': 'bytes', 'offset': 'int', 'data': 'bytes'}, stubs={'self._make_request': mk_request_stub},
+    ensures=[('WRITE-carries-handle-offset-data', lambda c: request_is(
+        c, FXP_WRITE, wire_string(c.arg('handle')), be(z3.IntVal(8), c.arg('offset')),
+        wire_string(c.arg('data'))))],
+    raises={'OverflowError': lambda c: z3.Not(uint_ok(c.arg('offset'), 8)), 'SFTPError': True})
+handler_write.no_replay = True
+
+
+def ranges_ctor_stub(cx):
+    return [Out(ret=cx.fresh('opaque:SFTPRanges', 'ranges'), event=('SFTPRanges', tuple(cx.args)))]
+
+
+ranges_ctor_stub.modifies = ()
+
+
+def handler_ranges_post(c):
+    reqs = c.calls('self._make_request')
+    made = c.events('SFTPRanges')
+    if reqs:
+        a = reqs[0]['args']
+        return z3.And(z3.BoolVal(len(reqs) == 1 and len(a) == 4 and not made), c.old('_supports_ranges'),
+                      a[0].z == bytes_const(b'ranges@asyncssh.com'), a[1].z == wire_string(c.arg('handle')),
+                      a[2].z == be(z3.IntVal(8), c.arg('offset')), a[3].z == be(z3.IntVal(8), c.arg('length')),
+                      z3.BoolVal(len(c.calls('SFTPRanges.decode')) == 1),
+                      c.eq(c.result_v, c.calls('SFTPRanges.decode')[0]['ret']))
+    # no extension: the whole window is one data range and the answer is final
+    if len(made) != 1:
+        return z3.BoolVal(False)
+    lst, at_end = made[0][1]
+    lst = c.ex.deref(c.new_state, lst)
+    ok = isinstance(lst, VList) and len(lst.items) == 1 and isinstance(lst.items[0], VTuple)
+    if not ok:
+        return z3.BoolVal(False)
+    o, n = lst.items[0].items
+    return z3.And(z3.Not(c.old('_supports_ranges')), o.z == c.arg('offset'), n.z == c.arg('length'),
+                  c.truthy(at_end))
+
+
+handler_request_ranges = Spec(
+    PROP, 'sftp', 'SFTPClientHandler.request_ranges', self_class='CHandler2', classes=CH_CLASSES,
+    params={'handle': 'bytes', 'offset': 'int', 'length': 'int'},
+    stubs={'self._make_request': mk_request_stub, 'SFTPRanges': ranges_ctor_stub,
+           'SFTPRanges.decode': may_raise(ret('opaque:SFTPRanges', 'decoded'), 'SFTPBadMessage'),
+           'packet.check_end': may_raise(noop('check_end'), 'SFTPBadMessage'), 'result.log': noop('log')},
+    ensures=[('ranges-request-carries-handle-offset-length(or-whole-window-fallback)', handler_ranges_post)],
+    raises={'OverflowError': lambda c: z3.Not(z3.And(uint_ok(c.arg('offset'), 8), uint_ok(c.arg('length'), 8))),
+            'SFTPError': True})
+handler_request_ranges.no_replay = True
+
+
+# ------------------------------------------------------------------ SFTPServerHandler: READ / WRITE / ranges requests
+# The server half of a transfer: the request's (offset, length | data) reach SFTPServer.read / write unchanged and
+# the reply is what that call produced.  Packet field decoding itself (get_string/get_uint64/...) is C14.
+SH_CLASSES = {'SHandler': {'_version': 'int', '_file_handles': 'dict[bytes,obj:SrvFile]', '_server': 'obj:Server'},
+              'SrvFile': {}, 'Server': {}, 'Pkt': {}, 'Attrs': {'size': 'opt[int]'}}
+PKT_STUBS = {'packet.get_string': ret('bytes', 'str_field'), 'packet.get_uint64': ret('int', 'u64_field'),
+             'packet.get_uint32': ret('int', 'u32_field'),
+             'packet.check_end': may_raise(noop('check_end'), 'SFTPBadMessage')}
+
+
+def handle_file(c, handle_z):
+    """the open file the handle denotes (object held in the handle table)"""
+    m = c.oldv('_file_handles')
+    return c.ex.map_value(c.new_state, m, handle_z)
+
+
+def srv_read_post(c):
+    strs, u64, u32 = c.calls('packet.get_string'), c.calls('packet.get_uint64'), c.calls('packet.get_uint32')
+    rd = c.calls('self._server.read')
+    if len(strs) != 1 or len(u64) != 1 or len(u32) != 1 or len(rd) != 1 or len(rd[0]['args']) != 3:
+        return z3.BoolVal(False)
+    a = rd[0]['args']
+    data = rd[0]['ret'].z
+    res = c.result_v
+    return z3.And(c.eq(a[0], handle_file(c, strs[0]['ret'].z)), a[1].z == u64[0]['ret'].z, a[2].z == u32[0]['ret'].z,
+                  res.items[0].z == data, z3.Length(data) > 0)
+
+
+process_read = Spec(
+    PROP, 'sftp', 'SFTPServerHandler._process_read', self_class='SHandler', classes=SH_CLASSES,
+    params={'packet': 'obj:Pkt'},
+    stubs=dict(PKT_STUBS, **{
+        'self._server.read': may_raise(ret('bytes', 'filedata'), 'OSError', 'SFTPError'),
+        'self._server.fstat': ret('any', 'osattrs'),
+        'self._server.convert_attrs': ret('obj:Attrs', 'attrs')}),
+    ensures=[('reads-the-requested-range-of-the-handle-and-returns-it', srv_read_post)],
+    # end-of-file is reported as an error status, never as an empty DATA reply
+    raises={'SFTPEOFError': lambda c: z3.And(z3.BoolVal(len(c.calls('self._server.read')) == 1), *[
+        z3.Length(x['ret'].z) == 0 for x in c.calls('self._server.read') if x.get('exc') is None]),
+        'SFTPInvalidHandle': lambda c: z3.BoolVal(len(c.calls('self._server.read')) == 0),
+        'SFTPBadMessage': lambda c: z3.BoolVal(len(c.calls('self._server.read')) == 0),
+        'SFTPError': True, 'OSError': True})
+process_read.no_replay = True
+
+
+def srv_write_post(c):
+    strs, u64 = c.calls('packet.get_string'), c.calls('packet.get_uint64')
+    wr = c.calls('self._server.write')
+    if len(strs) != 2 or len(u64) != 1 or len(wr) != 1 or len(wr[0]['args']) != 3:
+        return z3.BoolVal(False)
+    a = wr[0]['args']
+    return z3.And(c.eq(a[0], handle_file(c, strs[0]['ret'].z)), a[1].z == u64[0]['ret'].z,
+                  a[2].z == strs[1]['ret'].z, c.eq(c.result_v, wr[0]['ret']))
+
+
+process_write = Spec(
+    PROP, 'sftp', 'SFTPServerHandler._process_write', self_class='SHandler', classes=SH_CLASSES,
+    params={'packet': 'obj:Pkt'},
+    stubs=dict(PKT_STUBS, **{'self._server.write': may_raise(ret('int', 'written'), 'OSError', 'SFTPError')}),
+    ensures=[('writes-the-received-data-at-the-requested-offset-of-the-handle', srv_write_post)],
+    raises={'SFTPInvalidHandle': lambda c: z3.BoolVal(len(c.calls('self._server.write')) == 0),
+            'SFTPBadMessage': lambda c: z3.BoolVal(len(c.calls('self._server.write')) == 0),
+            'SFTPError': True, 'OSError': True})
+process_write.no_replay = True
+
+
+def srv_request_ranges_stub(cx):
+    """callee view of _request_ranges(file_obj, offset, length) (verified above): the ascending data ranges of the
+    window, in order, or OSError"""
+    R = cx.fresh('seq[' + TILE + ']', 'ranges')
+    R.raises = ['OSError']
+    return [Out(ret=R, event=('_request_ranges', tuple(cx.args)))]
+
+
+srv_request_ranges_stub.modifies = ()
+MAX_RANGES = 128          # _MAX_SPARSE_RANGES: the protocol constant of the extension (ranges per reply)
+
+
+def local_seq(c, name):
+    v = c.ex.deref(c.new_state, c.localv(name))
+    return z3.Empty(REQ.SEQ) if isinstance(v, VList) and not v.items else v.z
+
+
+def srv_ranges_inv(c):
+    R, k = c.extra['iter'].z, c.extra['i']
+    return z3.And(local_seq(c, 'result') == TL.prefix(R, k), c.local('count') == k, k < MAX_RANGES)
+
+
+def srv_ranges_post(c):
+    strs, u64 = c.calls('packet.get_string'), c.calls('packet.get_uint64')
+    rr, made = c.calls('_request_ranges'), c.events('SFTPRanges')
+    if len(strs) != 1 or len(u64) != 2 or len(rr) != 1 or len(made) != 1 or len(rr[0]['args']) != 3:
+        return z3.BoolVal(False)
+    a = rr[0]['args']
+    R = rr[0]['ret'].z
+    lst, at_end = made[0][1]
+    lst = c.ex.deref(c.new_state, lst)
+    L = z3.Length(lst.z)
+    return z3.And(
+        # the scan is made for the requested window of the handle's file
+        c.eq(a[0], handle_file(c, strs[0]['ret'].z)), a[1].z == u64[0]['ret'].z, a[2].z == u64[1]['ret'].z,
+        # the reply is a non-empty prefix of the ranges, in order
+        L >= 1, lst.z == TL.prefix(R, L), L <= z3.Length(R),
+        # "at end" only if nothing was cut off; a cut-off reply is full (the client continues behind it)
+        z3.Implies(c.truthy(at_end), lst.z == R),
+        z3.Implies(z3.Not(c.truthy(at_end)), L == MAX_RANGES))
+
+
+process_ranges = Spec(
+    PROP, 'sftp', 'SFTPServerHandler._process_ranges', self_class='SHandler', classes=SH_CLASSES,
+    params={'packet': 'obj:Pkt'}, local_types={'result': 'seq[' + TILE + ']'},
+    stubs=dict(PKT_STUBS, **{'_request_ranges': srv_request_ranges_stub, 'SFTPRanges': ranges_ctor_stub}),
+    loops={1: LoopSpec(header='for data_range in _request_ranges(file_obj, offset, length)',
+                       invariant=srv_ranges_inv)},
+    ensures=[('reply-is-a-prefix-of-the-ranges-and-at_end-only-when-complete', srv_ranges_post)],
+    raises={'SFTPEOFError': lambda c: z3.And(*[z3.Length(x['ret'].z) == 0 for x in c.calls('_request_ranges')]),
+            'SFTPInvalidHandle': lambda c: z3.BoolVal(len(c.calls('_request_ranges')) == 0),
+            'SFTPBadMessage': lambda c: z3.BoolVal(len(c.calls('_request_ranges')) == 0),
+            'OSError': True})
+process_ranges.no_replay = True
+
+
+# ------------------------------------------------------------------ SFTPClient._copy: the file branch
+# (paths and the directory / symlink branches of _copy are C13's; here: what reaches the copier - in particular the
+# announced size, which the total check of a non-sparse copy is measured against)
+def copy_file_branch(fn):
+    def find(block):
+        for st_ in block:
+            if isinstance(st_, ast.Expr) and any(isinstance(n_, ast.Name) and n_.id == '_SFTPFileCopier'
+                                                 for n_ in ast.walk(st_)):
+                return block
+            for sub in ('body', 'orelse', 'finalbody'):
+                r = find(getattr(st_, sub, []) or [])
+                if r is not None:
+                    return r
+        return None
+    return find(fn.body)
+
+
+COPY_PARAMS = {'srcfs': 'obj:FS', 'dstfs': 'obj:FS', 'srcpath': 'bytes', 'dstpath': 'bytes',
+               'srcattrs': 'obj:SrcAttrs', 'preserve': 'bool', 'recurse': 'bool', 'follow_symlinks': 'bool',
+               'sparse': 'bool', 'block_size': 'int', 'max_requests': 'int',
+               'progress_handler': 'opt[opaque:Progress]', 'error_handler': 'any', 'remote_only': 'bool'}
+COPY_CLASSES = dict(COPIER_CLASSES, CopyClient={'supports_remote_copy': 'bool'},
+                    SrcAttrs={'size': 'opt[int]', 'type': 'int'})
+
+
+def src_size(c):
+    n, v = opt_val(c.oldv('size', c.argv('srcattrs')))
+    return n, v
+
+
+def copy_file_post(c):
+    ctor = calls_of(c, '_SFTPFileCopier')
+    if len(ctor) != 1 or len(ctor[0]['args']) != 9 or len(calls_of(c, '_SFTPFileCopier().run')) != 1:
+        return z3.BoolVal(False)
+    a = ctor[0]['args']
+    n, v = src_size(c)
+    names = ['block_size', 'max_requests', None, 'sparse', 'srcfs', 'dstfs', 'srcpath', 'dstpath', 'progress_handler']
+    conj = [c.eq(a[k], c.argv(nm)) for k, nm in enumerate(names) if nm]
+    # the announced size is the size the source reported (0 when it reported none)
+    conj.append(int_is(a[2], z3.If(n, 0, v)))
+    return z3.And(conj)
+
+
+copy_file = Spec(
+    PROP, 'sftp', 'SFTPClient._copy', self_class='CopyClient', classes=COPY_CLASSES, params=COPY_PARAMS,
+    cases=[('file-branch', {})], region=copy_file_branch,
+    stubs={'_SFTPFileCopier': construct('Copier', lambda: copier_init, 'copier', ghost_zero=('ghost_sum',)),
+           '_SFTPFileCopier().run': contract_stub(lambda: copier_run)},
+    # block size / window as normalised by _begin_copy (proved there) and handed down unchanged by the recursion;
+    # a size attribute is a uint64 on the wire / a stat size locally
+    requires=lambda c: z3.And(c.arg('block_size') >= 1, c.arg('max_requests') >= 1,
+                              z3.Or(src_size(c)[0], src_size(c)[1] >= 0)),
+    ensures=[('copier-gets-the-announced-size-and-the-given-endpoints', copy_file_post)],
+    raises={'SFTPOpUnsupported': lambda c: z3.And(c.arg('remote_only'), z3.Not(c.old('supports_remote_copy')),
+                                                   z3.BoolVal(len(calls_of(c, '_SFTPFileCopier')) == 0)),
+            'SFTPError': True, 'OSError': True})
+copy_file.no_replay = True
